@@ -7,6 +7,7 @@ Family 2 (cross-option): two builds generated with different option sets run on 
 """
 from __future__ import annotations
 
+import os
 import sys
 import time
 import typing
@@ -325,6 +326,69 @@ def _work(a):
     return out
 
 
+# ---------------------------------------------------------------------------------------------- cross-target C <-> Python, float16
+def _cross_target_float16(rep: common.Report, d) -> None:
+    """'The C, C++ and Python targets produce identical bytes for the same value': for a float16 field every float32 value is a common value
+    (Python holds it as a double, exactly).  Python packs with struct '<e' = round to nearest, ties to EVEN (CPython; modelled and co-simulated in
+    the pysym checks).  The C support header's nunavutFloat16Pack is turned into a z3 term from its IR; asked for all 2^32 inputs:
+      main  : some non-NaN x that is NOT a rounding tie packs differently in C and in Python        (must be unsat)
+      region: some x that IS a tie (halfway between two halves) packs differently                    (listed finding if sat, replayed natively)"""
+    import struct
+    import subprocess
+    from llsym import build, unit
+    from checks import C14
+    out = d / "f16_any"
+    try:
+        build.nnvg("c", out, None, opts=C14.OPTSETS["any"])
+        tu = out / "w.c"
+        tu.write_text(unit.wrapper_tu(C14.INC, C14.PRIMS))
+        mod = core.parse_module(build.c_to_ir(tu, [out], "A", []))
+        eng = core.Engine(mod, check_ub=False)
+        x = z3.BitVec("x", 32)
+        t = None
+        for kind, s2, r in eng.run("w_F16Pack", [x], core.State()):
+            assert kind == "ok"
+            pc = z3.And(*[c for c in s2.pc if not isinstance(c, bool)]) if s2.pc else z3.BoolVal(True)
+            rb = bv(r, 16)
+            t = rb if t is None else z3.If(pc, rb, t)
+    except Exception as e:
+        rep.unknown("cross-target:float16", f"could not build the term: {type(e).__name__}: {str(e)[-200:]}")
+        return
+    fx = z3.fpBVToFP(x, z3.Float32())
+    rne = z3.fpToIEEEBV(z3.fpFPToFP(z3.RNE(), fx, z3.Float16()))
+    rna = z3.fpToIEEEBV(z3.fpFPToFP(z3.RNA(), fx, z3.Float16()))
+    for name, region in (("off-ties", rne == rna), ("ties", rne != rna)):
+        s = z3.Solver()
+        s.set("timeout", 300000)
+        s.add(z3.Not(z3.fpIsNaN(fx)), t != rne, region)
+        t0 = time.time()
+        r = s.check()
+        rep.solver_s += time.time() - t0
+        if r == z3.unsat:
+            rep.discharged(1, key=f"cross-target:float16:{name}", sample=dict(query=f"EXISTS float32 x ({name}): nunavutFloat16Pack(x) != the half Python's struct.pack('<e') produces",
+                                                                               verdict="unsat over all 2^32 inputs", wall_s=round(time.time() - t0, 2)))
+            continue
+        if r != z3.sat:
+            rep.unknown(f"cross-target:float16:{name}", "solver unknown")
+            continue
+        xv = s.model()[x].as_long()
+        # native replay: the real header compiled with gcc vs CPython's struct.pack
+        drv = out / "f16drv.c"
+        drv.write_text(f"#include {C14.INC}\n#include <stdio.h>\n#include <string.h>\nint main(void){{ uint32_t b = {xv}u; float f; memcpy(&f, &b, 4); "
+                       "printf(\"%u\\n\", (unsigned) nunavutFloat16Pack(f)); return 0; }\n")
+        exe = build.native(drv, out / "f16drv", [out])
+        c_half = int(subprocess.run([str(exe)], stdout=subprocess.PIPE, text=True, check=True).stdout.strip())
+        fval = struct.unpack("<f", struct.pack("<I", xv))[0]
+        py_half = struct.unpack("<H", struct.pack("<e", fval))[0]
+        rd = common.replay_dir("C03", dict(f16=xv))
+        (rd / "replay.sh").write_text(f"#!/bin/bash\n# float32 bit pattern {xv:#010x} = {fval!r}: C nunavutFloat16Pack vs Python struct.pack('<e')\n"
+                                      f"python3 -c \"import struct; print('python', hex(struct.unpack('<H', struct.pack('<e', {fval!r}))[0]), 'C', hex({c_half}))\"; exit 11\n")
+        os.chmod(rd / "replay.sh", 0o755)
+        rep.counterexample("f16-tie-rounding-c-vs-python" if name == "ties" else "f16-c-vs-python",
+                           f"float16 field, value {fval!r} (float32 {xv:#010x}{', exactly halfway between two half-precision values' if name == 'ties' else ''}): "
+                           f"C packs {c_half:#06x}, Python packs {py_half:#06x}", str(rd), c_half != py_half)
+
+
 def main(tier: str) -> int:
     rep = common.Report("C03", tier, "other")
     _TIER[0] = tier
@@ -342,6 +406,7 @@ def main(tier: str) -> int:
             for ti, on, what, lg, tu, wall in res:
                 cc.record(rep, types[ti], on, what, lg, tu, wall, replayer=py_common.replayer(types[ti]) if on == "py" else replay_c03)
         py_common.cosim(rep, types, per_type=1)
+        _cross_target_float16(rep, d)
         rep.functions = ["<T>_serialize_ and <T>_deserialize_ of every corpus type, chained (end states of one run are the start states of the next) and paired across builds"]
         rep.bounds = dict(types=len(types), chain="serialize at the maximum size, deserialize exactly the produced bytes, serialize again",
                           option_pairs=[f"{a} vs {b}" for a, b in pairs], cross_deserialize_lengths=("{0,1,ceil(max/2),max,max+1}" if tier == "quick" else "0..max(extent,max)+2"),
@@ -349,9 +414,10 @@ def main(tier: str) -> int:
     rep.assumptions = ["bool storage bytes are 0 or 1", "cast-mode adjustment of integers/floats is stated directly on the field terms (saturate/truncate, float16 faithful "
                        "rounding); the wire layout reference model is NOT used, except to tell which decoded fields are meaningful for a wire shape",
                        "cross-target: C <-> C++ is covered through the mirror harness (valid objects only on the C++ side); Python: the round trip is decided "
-                       "here (pysym); agreement of Python with C/C++ is NOT a query of this check: it follows, for the integer/boolean/array/union/delimiter "
-                       "layout, from C01 and C02 deciding each target against the same reference model over the same corpus, and is not established for the "
-                       "rounding of float16/float32 values that are not exactly representable (both targets are only shown to round faithfully)",
+                       "here (pysym); agreement of Python with C/C++ follows, for the integer/boolean/array/union/delimiter layout, from C01 and C02 deciding each "
+                       "target against the same reference model over the same corpus; for float16 fields it is decided here directly over all 2^32 float32 values "
+                       "(C pack term from the IR vs round-to-nearest-even, which is what CPython's struct.pack does): agreement everywhere except exact ties "
+                       "(listed finding); float32/float64 fields carry the common value's bit pattern in all targets",
                        "Python round trip: scalar float fields are assumed not NaN (payloads are not modelled)"] + py_common.ASSUMPTIONS
     rep.functions.append("Python target: <T>._serialize_ -> <T>._deserialize_ -> <T>._serialize_ of every corpus type in one pysym run per value shape")
     rep.not_covered = ["direct C <-> Python cross-target queries (see assumptions)", "C++ pmr/cetl allocator and container flavours, C++ bit arrays", "types not in the corpus"]
